@@ -141,6 +141,11 @@ pub fn mutants(base_name: &str) -> Vec<Mutant> {
         "signal (s1, s2) <== Leaf(n)(in);",
         "var t = Leaf(n)(in, in);",
         "Leaf(n)(nosuch <== in);",
+        // surplus named inputs: a repeated name, an unknown name next to the right one
+        "signal r1 <== Leaf(n)(in <== in, in <== in);",
+        "signal r2 <== Leaf(n)(in <== in, extra <== in);",
+        "signal r3 <== Leaf(n)(in, in);",
+        "signal r4 <== Leaf(n)();",
     ];
     for (i, s) in bad_sugar_in_template.iter().enumerate() {
         push(
